@@ -1,9 +1,10 @@
 CONSTANTS
+  Dom = "exh_thorough"
   NCb = 3
-  Names = {"all", "start", "descriptor", "event", "stop"}
-  PlanIds = {1, 2, 5}
+  Names = {}
+  PlanIds = {}
   MaxRaise = 1
-  DeliverAll = FALSE
+  DeliverAlls = {FALSE, TRUE}
 SPECIFICATION Spec
 INVARIANT TypeOK
 INVARIANT C19_OnceInOrder
